@@ -32,6 +32,7 @@ def jobs(tier):
     # reading its ordering clock, followed by a later statement of another thread
     add("c06.ub", 2, grace=1, adv=3, a=1, b=1, sleepadv_ns=2000, sync=1, noflush=1)
     add("c06.ub", 2, grace=1, adv=3, a=1, b=2, sleepadv_ns=2000, sync=1, noflush=1, soft=1, hard=1, tbuf=1)
+    add("c06.ub", 2, grace=1, adv=0, a=1, b=2, sleepadv_ns=2000, sync=0, noflush=0)
     if not q:
         for soft, hard, tbuf in ((1, 1, 1), (1, 2, 2), (2, 2, 1), (2, 2, 2)):
             add("c05.ub", 3, 900, grace=1, threads=2, calls=2, ksteps=3, soft=soft, hard=hard, tbuf=tbuf)
